@@ -77,6 +77,10 @@ MUTANTS = [
     dict(prop="C32", name="centres scaled", file=TBPY, old="    wannier_centers_red = positions % 1.0\n", new="    wannier_centers_red = (positions * 0.5) % 1.0\n"),
     dict(prop="C32", name="on-site energies of the wrong orbital (spinless)", file=TBPY, old="                Ham_R[index0, i, i] = model._site_energies[i]", new="                Ham_R[index0, i, i] = model._site_energies[norb_loc - 1 - i]"),
     dict(prop="C32", name="PRESERVING: on-site via += on the zero diagonal", file=TBPY, old="                Ham_R[index0, i, i] = model._site_energies[i]", new="                Ham_R[index0, i, i] += model._site_energies[i]", expect="ok"),
+    dict(prop="C32", name="Haldane_ptb: delta argument overridden (the defect fixed in 3aec8e52)", file="wannierberri/models.py", old="    t2 = hop2 * np.exp(1.j * phi)\n    t2c = t2.conjugate()\n\n    my_model.set_onsite([-delta, delta])\n    my_model.set_hop(hop1, 0, 1, [0, 0])", new="    delta = 0.2\n    t2 = hop2 * np.exp(1.j * phi)\n    t2c = t2.conjugate()\n\n    my_model.set_onsite([-delta, delta])\n    my_model.set_hop(hop1, 0, 1, [0, 0])"),
+    dict(prop="C32", name="Haldane_tbm: one second-neighbour hop with the opposite flux", file="wannierberri/models.py", old="    my_model.add_hop(t2, 1, 1, [0, 1])", new="    my_model.add_hop(t2c, 1, 1, [0, 1])"),
+    dict(prop="C32", name="Haldane_ptb: a nearest-neighbour bond to the wrong cell", file="wannierberri/models.py", old="    my_model.set_hop(hop1, 1, 0, [0, 1])", new="    my_model.set_hop(hop1, 1, 0, [1, 1])"),
+    dict(prop="C32", name="PRESERVING: Haldane_ptb hop written from the other end", file="wannierberri/models.py", old="    my_model.set_hop(hop1, 1, 0, [0, 1])", new="    my_model.set_hop(hop1, 0, 1, [0, -1])", expect="ok"),
     dict(prop="C08", name="Morb_H declared even under TR", file=COV, old="        self.E = data_K.E_K\n        self.ndim = 1\n        self.transformTR = transform_odd", new="        self.E = data_K.E_K\n        self.ndim = 1\n        self.transformTR = transform_ident"),
     dict(prop="C08", name="Der3E declared even under inversion", file=COV, old="        self.ndim = 3\n        self.transformTR = transform_odd\n        self.transformInv = transform_odd", new="        self.ndim = 3\n        self.transformTR = transform_odd\n        self.transformInv = transform_ident"),
     dict(prop="C08", name="get_transform_TR: SS even", file=DK, old="    elif name in ['CC', 'FF', 'OO', 'GG', 'SS', 'rotAA', 'rotAAab', 'CCab_antisym']:  # odd before derivative\n        p = 1", new="    elif name in ['CC', 'FF', 'OO', 'GG', 'rotAA', 'rotAAab', 'CCab_antisym']:  # odd before derivative\n        p = 1\n    elif name in ['SS']:\n        p = 0"),
